@@ -1,5 +1,41 @@
-import TransportVerif.Model.Replay
-import TransportVerif.Spec.Replay
+import TransportVerif.Link.Replay
+import TransportVerif.Proofs.Replay
+import TransportVerif.Props.C04
+/-
+C05 — the detectors implement exactly the sliding-window rule; the accept callback's return
+value; purity of Check.  The statements below are FIXED; only the proofs may change.
+-/
 namespace TV.Props.C05
-theorem placeholder : True := trivial
+open TV TV.Replay TV.ReplayLink TV.Props.C04
+
+set_option linter.unusedVariables false in
+/-- Main theorem (judgement form): every outcome equals the answer of the exact rule
+`ReplaySpec.expectedOk / expectedLatest` evaluated on the recorded history, for every
+configuration in C05's scope (`Cfg.inScope`; outside it `allowed05` admits everything) and every
+history. -/
+theorem judged05 (kind : Replay.Kind) (w m : Nat) (ops : List Replay.Op)
+    (hm : m < two64) (hw : w < 2 ^ 63) (hops : OpsU64 ops) :
+    ∀ o ∈ runNew kind w m ops,
+      ReplaySpec.allowed05 (cfgOf kind w m) o.before (Op.num o.op) (Op.acc o.op) (specOut o.out) = true :=
+  Proofs.Replay.run05 kind w m ops hw
+
+/-- A check whose callback is not invoked leaves the detector unchanged … -/
+theorem check_is_pure (d : Det) (s : Nat) : (Replay.step d (.check s)).1 = d :=
+  Proofs.Replay.step_check_fst d s
+
+/-- … hence it has no effect on any later answer. -/
+theorem check_changes_no_later_answer (d : Det) (s : Nat) (ops : List Replay.Op) :
+    outs (Replay.step d (.check s)).1 ops = outs d ops :=
+  Proofs.Replay.outs_check d s ops
+
+/-- a refused check+accept leaves the detector unchanged as well -/
+theorem refused_is_pure (d : Det) (s : Nat) (h : (Replay.step d (.checkAccept s)).2 = .refused) :
+    (Replay.step d (.checkAccept s)).1 = d :=
+  Proofs.Replay.step_refused_fst d s h
+
+-- non-vacuity: in-scope configurations exist and the rule has all three outcomes
+example : (cfgOf .plain 64 1000).inScope = true ∧ (cfgOf .wrap 64 65535).inScope = true := by decide
+example : outs (Det.new .plain 8 100) [.checkAccept 5, .checkAccept 0, .checkAccept 0, .check 20]
+    = [.accepted true, .accepted false, .refused, .okNoAccept] := by decide
+
 end TV.Props.C05
